@@ -10,7 +10,7 @@ use crate::src::*;
 use seq_io::fasta;
 use seq_io::fastq::Record;
 
-const FQ: usize = 14;
+const FQ: usize = 16;
 
 fn clean(b: u8) -> bool {
     b != LF && b != CR
@@ -134,7 +134,8 @@ pub fn fa_layout<N: Nd, const TERM: bool>(nd: &mut N) {
     let al = nd.usize_in(0, 1);
     let b = nd.u8();
     let bl = nd.usize_in(0, 1);
-    nd.assume(clean(h) && clean(a) && clean(b));
+    // sequence lines do not start with '>' (that would be a header line)
+    nd.assume(clean(h) && clean(a) && clean(b) && a != b'>' && b != b'>');
     let (e1, e2, e3) = (nd.bool(), nd.bool(), nd.bool());
     let line0 = nd.u64();
     nd.assume(line0 >= 1 && line0 < (1 << 40));
